@@ -386,12 +386,12 @@ impl HandshakeState {
     }
 
     fn _read_message(&mut self, message: &[u8], payload: &mut [u8]) -> Result<usize, Error> {
-        if message.len() > MAXMSGLEN {
-            return Err(Error::Input);
-        } else if self.my_turn {
+        if self.my_turn {
             return Err(StateProblem::NotTurnToRead.into());
         } else if self.pattern_position >= self.message_patterns.len() {
             return Err(StateProblem::HandshakeAlreadyFinished.into());
+        } else if message.len() > MAXMSGLEN {
+            return Err(Error::Input);
         }
         let last = self.pattern_position == (self.message_patterns.len() - 1);
 
